@@ -1,6 +1,6 @@
 #!/usr/bin/env python3-vt
 """C17 -- shutdown is graceful: the client-facing half (refusal of new non-admin clients, idle clients told and disconnected, a transaction
-in progress allowed to finish).  The signal handling and exit timing of main.rs are outside what is decided here."""
+in progress allowed to finish) and the accept / signal / drain loop of main.rs (checks/mainloop.py, from the MIR of the binary target)."""
 import os, sys
 sys.path.insert(0, os.path.dirname(os.path.dirname(os.path.abspath(__file__))))
 import re, struct
@@ -44,6 +44,69 @@ def c17_late():
                 return True, 'native: with admin_only set (shutdown begun) a new non-admin client (%s) was admitted: %r' % (r.get('scenario'), r)
         return False, 'native: late clients are refused on every connection path: %r' % (res,)
     return f
+
+
+@expectation('c17_resub')
+def c17_resub():
+    """Native: the real Client::startup with the shutdown broadcast sent while the MD5 challenge is outstanding, then the real Client::handle:
+    the client must be refused or told 'terminating connection due to administrator command'."""
+    def f(res):
+        for r in res:
+            if 'error' in r or 'panic' in r:
+                return False, 'native: %r' % (r,)
+            if r.get('admitted') and not r.get('told_shutdown'):
+                return True, 'native: a client whose login straddles the shutdown broadcast is admitted and never told: %r' % (r,)
+        return False, 'native: such a client is refused or told: %r' % (res,)
+    return f
+
+
+@expectation('c17_main')
+def c17_main():
+    """Native confirmation for the accept loop: the real pgcat binary run as a child process under the event script (signals sent with
+    kill(2), clients over loopback TCP, a scripted PostgreSQL behind it), judged by the same rules."""
+    def f(res):
+        for r in res:
+            if 'error' in r or r.get('problems') is None:
+                return False, 'native: %r' % (r.get('error'),)
+            if r['problems']:
+                return True, 'native (real process, events %s): %s; exited=%s, logins=%s, after each event: %s' % (
+                    r['script'], ', '.join(r['problems']), r['exited'], r['logins'], [(s['event'], 'exited' if s['exited'] else 'running') for s in r['steps']])
+        return False, 'native: the real process behaves as specified under %s' % ([r['script'] for r in res],)
+    return f
+
+
+def o3_main_loop(chk, bprog, first, n, prop='C17', only=None, oname='O3'):
+    """The accept / signal / drain loop of main.rs from the MIR of the binary target, under every event script of length <= n that starts
+    with `first`."""
+    from checks import mainloop
+    scs = [s for s in mainloop.scripts(n, chk.thorough) if (s[:1] or ('',))[0] == first]
+    ob = chk.begin('%s-main-loop-%s' % (oname, first or 'empty'), 'the coroutine main() hands to block_on (src/main.rs: bind, pools, signal handlers, the select! loop over SIGHUP / SIGINT / '
+                   'SIGTERM / accept / exit channel / drain channel, the client tasks and the shutdown timer it spawns) executed from the MIR of the binary target under every '
+                   'event script of length <= %d beginning with %r (%d scripts; events: SIGINT, SIGTERM, SIGHUP, a client connecting, its login being counted, a counted '
+                   'client leaving, accept() failing, shutdown_timeout passing); which select! branch is polled first is the solver\'s choice; general.shutdown_timeout is '
+                   'symbolic. Decided: SIGTERM ends the loop; SIGINT ends it once the drain count is back at 0 or the timer has run for shutdown_timeout ms, and not before; '
+                   'nothing else ends it; SIGINT sends the shutdown broadcast to every client task already started; a client task accepted after SIGINT is started with '
+                   'admin_only = true (before: false), with its own broadcast subscription taken in the loop, and passes both to client_entrypoint; SIGHUP calls '
+                   'reload_config once per signal' % (n, first, len(scs)), {'scripts': len(scs), 'max_events': n})
+    seen = set()
+
+    def report(key, what, script):
+        if key in seen or (only is not None and key not in only):
+            return
+        seen.add(key)
+        native = [e for e in script]
+        # what the real process can show: a login that is still outstanding is completed (admitted or refused is the observation); the
+        # timer needs a client that keeps the process alive
+        if key == 'timeout-period' or key == 'timeout-ignored':
+            native = ['client', 'counted', 'int', 'timeout']
+        elif key in ('no-broadcast', 'no-subscription'):
+            native = ['idle_client', 'int']
+        else:
+            native += ['counted'] * (native.count('client') - native.count('counted'))
+        chk.report(ob, '%s/%s/%s' % (prop, oname, key), what, {'events': list(script)}, {'commands': [{'op': 'main_process', 'script': native}], 'expect': ['c17_main']})
+    for sc in scs:
+        mainloop.run_script(chk, ob, bprog, sc, {prop}, report)
+    chk.end(ob)
 
 
 def o2_entrypoint(chk, prog):
@@ -150,18 +213,28 @@ def o2_entrypoint(chk, prog):
     chk.end(ob)
 
 
+def _dispatch(chk, f, args):
+    f(chk, *args)
+
+
 def main(chk):
     chk.explanation = (
-        'Solver-based checking of the client-facing half of C17, executed from MIR. (O1) Client::startup with admin_only = true (what the accept '
+        'Solver-based checking of C17 executed from MIR. (O1) Client::startup with admin_only = true (what the accept '
         'loop passes once shutdown has begun): a non-admin client is refused whatever it answers to the challenge, an admin client is still '
-        'admitted (the C09 startup obligation instantiated for shutdown). (H) The real Client::handle coroutine on sessions during which the '
+        'admitted (the C09 startup obligation instantiated for shutdown). (O2) client_entrypoint: the drain channel gets +1 iff a non-admin client was admitted and '
+        'sums to 0 when its task is over, whatever the first packet and however the session ends. (O3) The accept / signal loop of src/main.rs -- the coroutine main() '
+        'hands to block_on, from the MIR of the binary target -- under every bounded script of events (SIGINT, SIGTERM, SIGHUP, client connecting / counted / leaving, '
+        'accept() failing, shutdown_timeout passing) with the select! polling order as the solver\'s choice: SIGTERM ends the loop, SIGINT ends it when the drain count is '
+        'back at 0 or after shutdown_timeout and not before, nothing else does; clients accepted after SIGINT are started with admin_only = true; the broadcast reaches '
+        'every client task started before. (H) The real Client::handle coroutine on sessions during which the '
         'shutdown broadcast may arrive at ANY select! (solver\'s choice, either polling order of the two select! branches): the signal is acted '
         'on only while the session holds no server (a transaction in progress is finished first, its statements forwarded and answered as '
         'usual), the client is then sent "terminating connection due to administrator command" and the session ends; nothing it sent '
-        'before is lost.  NOT decided: main.rs (SIGINT/SIGTERM handling, the admin SHUTDOWN command reaching the signal channel, exit once '
-        'all clients have left or shutdown_timeout has passed) -- OS signals and the accept/drain select! loop are not encodable.')
+        'before is lost.  NOT decided: the admin SHUTDOWN command reaching the process as SIGINT (nix::kill), main() before block_on, OS-level signal delivery.')
     chk.assumptions += [
-        'main.rs is outside the claim: that SIGINT sets admin_only and sends the broadcast, that the process exits on drain / shutdown_timeout, that SIGTERM exits immediately',
+        'main.rs: OS signal delivery, tokio::spawn, mpsc FIFO order, broadcast delivery to existing subscribers and tokio::time::interval (first tick immediate) are library contracts; '
+        'event scripts are bounded (4 events quick, 5 thorough); a client task acts on the drain channel as client_entrypoint\'s contract (O2) says',
+        'the admin SHUTDOWN command is taken to deliver SIGINT to the process (admin.rs: nix::sys::signal::kill) -- not decided',
         'session-mode clients hold their server for the whole session and therefore never observe the signal (the property speaks of transaction-mode clients)',
         'tokio broadcast::Receiver::recv yields a sent value exactly once (library contract)',
     ]
@@ -172,11 +245,20 @@ def main(chk):
     tasks.append((c09.o1_startup, (prog, 'u', 'db', 0, 'trust', True)))
     tasks.append((c09.o1_startup, (prog, 'admin', 'pgcat', 36, 'none', True)))
     tasks.append((c09.o1_startup, (prog, 'admin', 'pgbouncer', 36, 'none', True)))
+    # (not shutting down yet: what an admitted client listens on afterwards)
+    tasks.append((c09.o1_startup, (prog, 'u', 'db', 36, 'md5', False)))
     chk.parallel(c09._dispatch, tasks)
     try:
         o2_entrypoint(chk, prog)
     except Inconclusive as e:
         chk.note_inconclusive('O2-entrypoint-drain: %s' % e)
+    from mirsym import build
+    from checks import mainloop
+    try:
+        bprog = build.load_bin_program('on')
+        chk.parallel(_dispatch, [(o3_main_loop, (bprog, first, 5 if chk.thorough else 4)) for first in ('',) + mainloop.EVENTS if first not in ('counted', 'left', 'timeout')])
+    except Inconclusive as e:
+        chk.note_inconclusive('O3-main-loop: %s' % e)
     hobl.handle_obligations(chk, prog, {'C17'}, ['shutdown'])
 
 
